@@ -1,0 +1,214 @@
+//go:build verif
+
+package dmap
+
+import (
+	"strings"
+
+	"github.com/olric-data/olric/internal/cluster/partitions"
+	"github.com/olric-data/olric/internal/kvstore"
+	"github.com/olric-data/olric/internal/kvstore/table"
+	"github.com/olric-data/olric/pkg/storage"
+)
+
+// VerifEntry is a decoded copy of a stored entry. Reading it does not touch
+// the last-access field of the stored entry.
+type VerifEntry struct {
+	HKey       uint64
+	Key        string
+	Value      []byte
+	TTL        int64
+	Timestamp  int64
+	LastAccess int64
+}
+
+func (s *Service) verifPartition(kind partitions.Kind, partID uint64) *partitions.Partition {
+	if kind == partitions.BACKUP {
+		return s.backup.PartitionByID(partID)
+	}
+	return s.primary.PartitionByID(partID)
+}
+
+func (s *Service) verifFragment(kind partitions.Kind, partID uint64, name string) *fragment {
+	part := s.verifPartition(kind, partID)
+	f, ok := part.Map().Load(s.fragmentName(name))
+	if !ok {
+		return nil
+	}
+	return f.(*fragment)
+}
+
+// VerifDMapNames lists the DMaps that have a fragment on the given partition.
+func (s *Service) VerifDMapNames(kind partitions.Kind, partID uint64) []string {
+	var names []string
+	s.verifPartition(kind, partID).Map().Range(func(name, _ interface{}) bool {
+		if strings.HasPrefix(name.(string), "dmap.") {
+			names = append(names, strings.TrimPrefix(name.(string), "dmap."))
+		}
+		return true
+	})
+	return names
+}
+
+func verifDecode(f *fragment, hkey uint64) (VerifEntry, bool) {
+	raw, err := f.storage.GetRaw(hkey)
+	if err != nil {
+		return VerifEntry{}, false
+	}
+	e := f.storage.NewEntry()
+	e.Decode(raw)
+	v := make([]byte, len(e.Value()))
+	copy(v, e.Value())
+	return VerifEntry{
+		HKey:       hkey,
+		Key:        strings.Clone(e.Key()),
+		Value:      v,
+		TTL:        e.TTL(),
+		Timestamp:  e.Timestamp(),
+		LastAccess: e.LastAccess(),
+	}, true
+}
+
+// VerifEntries returns decoded copies of every entry of one fragment, taken
+// under the fragment's own lock. The second result is false if there is no
+// such fragment.
+func (s *Service) VerifEntries(kind partitions.Kind, partID uint64, name string) ([]VerifEntry, bool) {
+	f := s.verifFragment(kind, partID, name)
+	if f == nil {
+		return nil, false
+	}
+	f.Lock()
+	defer f.Unlock()
+	var hkeys []uint64
+	f.storage.RangeHKey(func(hkey uint64) bool {
+		hkeys = append(hkeys, hkey)
+		return true
+	})
+	res := make([]VerifEntry, 0, len(hkeys))
+	for _, hkey := range hkeys {
+		if e, ok := verifDecode(f, hkey); ok {
+			res = append(res, e)
+		}
+	}
+	return res, true
+}
+
+// VerifEntry returns a decoded copy of one entry (kind, name, key).
+func (s *Service) VerifEntry(kind partitions.Kind, name, key string) (VerifEntry, bool) {
+	hkey := partitions.HKey(name, key)
+	var partID uint64
+	if kind == partitions.BACKUP {
+		partID = s.backup.PartitionIDByHKey(hkey)
+	} else {
+		partID = s.primary.PartitionIDByHKey(hkey)
+	}
+	f := s.verifFragment(kind, partID, name)
+	if f == nil {
+		return VerifEntry{}, false
+	}
+	f.Lock()
+	defer f.Unlock()
+	return verifDecode(f, hkey)
+}
+
+// VerifStats returns the storage statistics and the white-box table list of a fragment.
+func (s *Service) VerifStats(kind partitions.Kind, partID uint64, name string) (storage.Stats, []table.VerifInfo, bool) {
+	f := s.verifFragment(kind, partID, name)
+	if f == nil {
+		return storage.Stats{}, nil, false
+	}
+	f.Lock()
+	defer f.Unlock()
+	st := f.storage.Stats()
+	var tables []table.VerifInfo
+	if kv, ok := f.storage.(*kvstore.KVStore); ok {
+		tables = kv.VerifTables()
+	}
+	return st, tables, true
+}
+
+// VerifCompactFragment runs compaction steps on one fragment, each under the
+// fragment lock like the compaction worker does, until done or maxSteps.
+func (s *Service) VerifCompactFragment(kind partitions.Kind, partID uint64, name string, maxSteps int) (steps int, done bool) {
+	f := s.verifFragment(kind, partID, name)
+	if f == nil {
+		return 0, true
+	}
+	for steps < maxSteps {
+		f.Lock()
+		d, err := f.Compaction()
+		f.Unlock()
+		steps++
+		if err != nil {
+			return steps, false
+		}
+		if d {
+			return steps, true
+		}
+	}
+	return steps, false
+}
+
+// VerifCompactAll runs VerifCompactFragment on every fragment of this member.
+// It returns the total number of steps and whether every fragment reported done.
+func (s *Service) VerifCompactAll(maxStepsPerFragment int) (steps int, done bool) {
+	done = true
+	for partID := uint64(0); partID < s.config.PartitionCount; partID++ {
+		for _, kind := range []partitions.Kind{partitions.PRIMARY, partitions.BACKUP} {
+			for _, name := range s.VerifDMapNames(kind, partID) {
+				n, d := s.VerifCompactFragment(kind, partID, name, maxStepsPerFragment)
+				steps += n
+				if !d {
+					done = false
+				}
+			}
+		}
+	}
+	return steps, done
+}
+
+// VerifEvictScanAll runs the background eviction scan once on every primary fragment.
+func (s *Service) VerifEvictScanAll() {
+	for partID := uint64(0); partID < s.config.PartitionCount; partID++ {
+		part := s.primary.PartitionByID(partID)
+		part.Map().Range(func(name, tmp interface{}) bool {
+			s.scanFragmentForEviction(partID, name.(string), tmp.(*fragment))
+			return true
+		})
+	}
+}
+
+// VerifJanitorOnce runs the empty-fragment janitor once.
+func (s *Service) VerifJanitorOnce() { s.deleteEmptyFragments() }
+
+// VerifPutEntryAt stores an entry with the given metadata directly into a
+// fragment of this member, bypassing routing and replication.
+func (s *Service) VerifPutEntryAt(kind partitions.Kind, name, key string, value []byte, ttl, timestamp int64) error {
+	dm, err := s.getOrCreateDMap(name)
+	if err != nil {
+		return err
+	}
+	hkey := partitions.HKey(name, key)
+	part := dm.getPartitionByHKey(hkey, kind)
+	f, err := dm.loadOrCreateFragment(part)
+	if err != nil {
+		return err
+	}
+	f.Lock()
+	defer f.Unlock()
+	e := f.storage.NewEntry()
+	e.SetKey(key)
+	e.SetValue(value)
+	e.SetTTL(ttl)
+	e.SetTimestamp(timestamp)
+	return f.storage.Put(hkey, e)
+}
+
+// VerifDeleteEntryAt removes a key directly from a fragment of this member.
+func (s *Service) VerifDeleteEntryAt(kind partitions.Kind, name, key string) error {
+	dm, err := s.getOrCreateDMap(name)
+	if err != nil {
+		return err
+	}
+	return dm.deleteFromFragment(key, kind)
+}
